@@ -508,7 +508,10 @@ func (na *NilAn) factMatch(kind, d, aux string) (func(Atom) bool, func(*ssa.Func
 				return false
 			}
 			fa := na.forAllFor(kind, d, aux, coll, elemKey)
-			if !fa.inFn(g, ga).holds {
+			// the validator loops over the collection itself, or hands it to a helper that does
+			okV := false
+			bindCall(c, g, func() { okV = fa.OnAccept(g, ga).Holds })
+			if !okV {
 				return false
 			}
 		}
